@@ -418,6 +418,15 @@ def gbStep (toks : List String) : String :=
     | _, _, _ => "bad-op"
   | _ => "bad-op"
 
+/-- `npsplit <ts> <cuts>` → the pieces of the index under NumPy's rule for any non-negative split points: `a,b|-|c` -/
+def npsplitStep (toks : List String) : String :=
+  match toks with
+  | ["npsplit", t, c] =>
+    match parseArr t, parseNatArr c with
+    | some t, some c => "|".intercalate ((npSplit t.toList c.toList).map fun p => showArr p.toArray)
+    | _, _ => "bad-op"
+  | _ => "bad-op"
+
 def stepAll (line : String) : String :=
   let toks := (line.trimAscii.toString.splitOn " ").filter (· ≠ "")
   match toks with
@@ -448,6 +457,7 @@ def stepAll (line : String) : String :=
   | "gjitter" :: _ => rgroupStep toks
   | "gshuffle" :: _ => rgroupStep toks
   | "groupby" :: _ => gbStep toks
+  | "npsplit" :: _ => npsplitStep toks
   | "groupby2" :: _ => gbStep toks
   | "getgroup" :: _ => gbStep toks
   | _ => kernelStep toks
